@@ -11,7 +11,7 @@ import time
 
 FINISH = dict(level="proof", rule=(
     "crash points: idle / exec_running / exec_running_after / in_sync / after_exec_returned / file_ops / init_command / "
-    "ptrace_running / ptrace_in_sync / forkexec_in_sync / ns_in_sync (the launcher dies inside the sync callback), each with the kill delivered 0..200 ms after the announcement; programs are process trees of 7 tasks "
+    "ptrace_running / ptrace_in_sync / forkexec_in_sync / ns_in_sync (the launcher dies inside the sync callback), each with the kill delivered 0..200 ms after the announcement; programs are process trees of 8 tasks (fork, fork of fork, and one vfork+exec descendant) "
     "that ignore all signals.  Non-trivial: every crash point with a live program; distinct = distinct (point, delay)."))
 
 # steps of the tracer at which the controller is killed (n-th debug message of the tracer containing the text)
